@@ -207,10 +207,10 @@ Qed.
 
 Lemma TaskInv_retain s : TaskInv s -> TaskInv (retain_state s).
 Proof.
-  intros [A B]. split; [exact A|]. intros k Hk. cbn in Hk. specialize (B k Hk). unfold rstat in *. cbn.
+  intros [A B]. split; [exact A|]. intros k Hk. cbn in Hk. specialize (B k Hk). unfold rstat in *. cbn [f_mgr retain_state set_mgr].
+  rewrite aget_aretain. unfold retrier_kept.
   destruct (aget (f_mgr s) k) as [r|] eqn:E; [|discriminate]. cbn in B. inversion B as [Br].
-  erewrite aget_filter_keep; [cbn; rewrite Br; reflexivity|exact E|].
-  unfold keep_retrier. cbn. rewrite Br. cbn. rewrite orb_true_r. reflexivity.
+  unfold keep_retrier. rewrite Br. cbn. rewrite orb_true_r. cbn. rewrite Br. reflexivity.
 Qed.
 
 Lemma TaskInv_mgr_sweep s elapsed : TaskInv s -> TaskInv (fst (mgr_sweep s elapsed)).
@@ -801,3 +801,328 @@ Proof.
     + intros k. destruct (N.eqb k t) eqn:Ek; [|reflexivity]. apply N.eqb_eq in Ek. subst. unfold stat. rewrite Et. reflexivity.
     + intros k su' H. exists su'. repeat split; auto.
 Qed.
+
+Lemma prim_add_update_tower c t addr slots start expiry sg c' r :
+  Inv c -> c_poisoned c = false -> wt_add_update_tower c t addr slots start expiry sg = (c', r) ->
+  Inv c' /\ c_retriers c' = c_retriers c /\ healthy_or_abort c' r /\
+  ((c_db c' = c_db c /\ forall k, stat c' k = stat c k) \/
+   (r = ROk /\ c_poisoned c' = false /\
+    (forall k, stat c' k = if N.eqb k t then Some (match stat c t with Some st => st | None => Reachable end) else stat c k) /\
+    tbl (c_db c') T_registration_receipts = tbl (c_db c) T_registration_receipts ++ [[t; slots; start; expiry; sg]] /\
+    (forall k, Trow (c_db c') k <-> Trow (c_db c) k \/ k = t) /\
+    (forall tb, tb <> T_towers -> tb <> T_registration_receipts -> tbl (c_db c') tb = tbl (c_db c) tb))).
+Proof.
+  intros HI Hp E. pose proof (Inv_add_update_tower c t addr slots start expiry sg HI Hp) as HI'. rewrite E in HI'. cbn [fst] in HI'.
+  split; [exact HI'|]. revert E. unfold wt_add_update_tower.
+  set (store := match dbm_store_tower_record (c_db c) t addr slots start expiry sg with DbOk _ => _ | DbErr _ => _ end).
+  assert (Hstore : store = (c', r) ->
+    c_retriers c' = c_retriers c /\ healthy_or_abort c' r /\
+    ((c_db c' = c_db c /\ forall k, stat c' k = stat c k) \/
+     (r = ROk /\ c_poisoned c' = false /\
+      (forall k, stat c' k = if N.eqb k t then Some (match stat c t with Some st => st | None => Reachable end) else stat c k) /\
+      tbl (c_db c') T_registration_receipts = tbl (c_db c) T_registration_receipts ++ [[t; slots; start; expiry; sg]] /\
+      (forall k, Trow (c_db c') k <-> Trow (c_db c) k \/ k = t) /\
+      (forall tb, tb <> T_towers -> tb <> T_registration_receipts -> tbl (c_db c') tb = tbl (c_db c) tb)))).
+  { unfold store. destruct (dbm_store_tower_record (c_db c) t addr slots start expiry sg) as [d'|e] eqn:Es; intros E; inversion E; subst; clear E.
+    - cbn [c_retriers c_db c_towers c_poisoned with_db with_towers]. split; [reflexivity|]. split; [left; exact Hp|]. right.
+      destruct (store_tower_spec _ _ _ _ _ _ _ _ (proj1 HI) Es) as [_ [T4 [T0 Hfr]]].
+      repeat split; auto.
+      + intros k. unfold stat. cbn [c_towers with_db with_towers]. rewrite aget_aset. destruct (N.eqb k t); [|reflexivity].
+        destruct (aget (c_towers c) t); reflexivity.
+      + destruct (has_pk CS (c_db c) T_towers [t]) eqn:Eh.
+        * intros H. left. apply (Trow_map _ _ _ k T0 (upd_tower_key t addr slots)). exact H.
+        * unfold Trow. rewrite T0. intros [row [A B]]. apply in_app_or in A. destruct A as [A|[<-|[]]]; [left; exists row; auto|right].
+          cbn in B. congruence.
+      + destruct (has_pk CS (c_db c) T_towers [t]) eqn:Eh.
+        * intros [H| ->]; [apply (Trow_map _ _ _ k T0 (upd_tower_key t addr slots)); exact H|].
+          apply (Trow_map _ _ _ t T0 (upd_tower_key t addr slots)). apply tower_row_iff. exact Eh.
+        * unfold Trow. rewrite T0. intros [[row [A B]]| ->]; [exists row; split; [apply in_or_app; left; exact A|exact B]|].
+          exists [t; addr; slots]. split; [apply in_or_app; right; left; reflexivity|reflexivity].
+    - cbn [c_retriers c_db c_poisoned poison]. split; [reflexivity|]. split; [right; eexists; reflexivity|]. left. split; reflexivity. }
+  destruct (aget (c_towers c) t) as [su|] eqn:Et; [|exact Hstore].
+  destruct (N.leb expiry (su_expiry su)).
+  { intros E. inversion E. subst. split; [reflexivity|]. split; [left; exact Hp|]. left. split; reflexivity. }
+  destruct (load_tower_record (c_db c) t) as [|info|st].
+  - intros E. inversion E. subst. split; [reflexivity|]. split; [right; eexists; reflexivity|]. left. split; reflexivity.
+  - destruct (N.leb slots (ti_slots info)); [|exact Hstore].
+    intros E. inversion E. subst. split; [reflexivity|]. split; [left; exact Hp|]. left. split; reflexivity.
+  - intros E. inversion E. subst. split; [reflexivity|]. split; [right; eexists; reflexivity|]. left. split; reflexivity.
+Qed.
+
+Lemma prim_remove_tower c t c' r :
+  Inv c -> c_poisoned c = false -> knownc c t -> wt_remove_tower c t = (c', r) ->
+  Inv c' /\ c_retriers c' = c_retriers c /\ r = ROk /\ c_poisoned c' = false /\
+  (forall k, stat c' k = if N.eqb k t then None else stat c k) /\
+  (forall tb, tb <> T_appointments -> tbl (c_db c') tb = filter (fun row => negb (row_of_tower tb t row)) (tbl (c_db c) tb)).
+Proof.
+  intros HI Hp Hk E. pose proof (Inv_remove_tower c t HI Hp) as HI'. rewrite E in HI'. cbn [fst] in HI'.
+  split; [exact HI'|]. revert E. unfold wt_remove_tower. unfold knownc, amem in Hk.
+  destruct (aget (c_towers c) t) as [su|] eqn:Et; [|discriminate].
+  destruct HI as [HD HM]. destruct (proj1 (HM Hp) t su Et) as [tr0 [rr0 [A0 _]]].
+  assert (Hhas : has_pk CS (c_db c) T_towers [t] = true) by (rewrite has_pk_find, A0; reflexivity).
+  destruct (remove_tower_total _ _ Hhas) as [d' Es]. rewrite Es. intros E. inversion E. subst. clear E.
+  cbn [c_retriers c_db c_towers c_poisoned with_db with_towers]. split; [reflexivity|]. split; [reflexivity|]. split; [exact Hp|].
+  destruct (remove_tower_spec _ _ _ HD Es) as [_ [Hfr _]]. split; [|exact Hfr].
+  intros k. unfold stat. cbn [c_towers with_db with_towers]. rewrite aget_aremove. destruct (N.eqb k t); reflexivity.
+Qed.
+
+(* ====================================================================== *)
+(* the invariant of the flow                                              *)
+(* ====================================================================== *)
+Definition excl3 (a b c : Prop) : Prop := ~ (a /\ b) /\ ~ (a /\ c) /\ ~ (b /\ c).
+
+(* durable part: about the database (and the ghost set of owed pairs) only; holds in every state, also a poisoned one *)
+Definition DurInv (d : db) (due : list (N * N)) : Prop :=
+  DbInv d /\
+  (forall t l, ~ Mrow d t -> excl3 (Rrow d t l) (Prow d t l) (Irow d t l)) /\
+  (forall t l, In (t, l) due -> Trow d t /\ (~ Mrow d t -> Rrow d t l \/ Prow d t l \/ Irow d t l)).
+
+Definition chan_data (q : list (N * rdata)) (t : N) : list N :=
+  flat_map (fun m => if N.eqb (fst m) t then rdata_set (snd m) else []) q.
+Lemma tracked_eq s t : tracked s t = retrier_pending s t ++ chan_data (f_chan s) t.
+Proof. reflexivity. Qed.
+Lemma chan_data_app q q' t : chan_data (q ++ q') t = chan_data q t ++ chan_data q' t.
+Proof. unfold chan_data. apply flat_map_app. Qed.
+
+(* volatile part: holds while the mutex is healthy *)
+Definition VolInv (s : fstate) : Prop :=
+  (forall t, stat (f_c s) t = Some Misbehaving -> Mrow (c_db (f_c s)) t) /\
+  (forall t, knownc (f_c s) t -> forall l, In l (tracked s t) -> Prow (c_db (f_c s)) t l) /\
+  (forall t, rstat s t = Some RRunning -> NoDup (tracked s t)) /\
+  (forall t r, aget (f_mgr s) t = Some r -> NoDup (r_pending r)) /\
+  (forall t, rstat s t = Some RRunning -> aget (c_retriers (f_c s)) t = Some RRunning).
+
+Definition FInv (s : fstate) : Prop :=
+  Inv (f_c s) /\ DurInv (c_db (f_c s)) (f_due s) /\ (poisoned s = false -> VolInv s) /\ TaskInv s.
+
+(* known towers = tower rows (memory = disk) *)
+Lemma known_iff_Trow c t : Inv c -> c_poisoned c = false -> (knownc c t <-> Trow (c_db c) t).
+Proof.
+  intros [HD HM] Hp. destruct (HM Hp) as [M1 M2]. unfold knownc, amem. split.
+  - destruct (aget (c_towers c) t) as [su|] eqn:E; [|discriminate]. intros _.
+    destruct (M1 t su E) as [tr [rr [A _]]]. apply tower_row_iff. unfold tower_row. rewrite has_pk_find, A. reflexivity.
+  - intros H. destruct (aget (c_towers c) t) eqn:E; [reflexivity|]. apply M2 in E. apply tower_row_iff in H.
+    unfold tower_row in H. rewrite has_pk_find, E in H. discriminate.
+Qed.
+
+(* what memory says about a (tower, locator): has_appointment = some record exists *)
+Lemma has_appointment_iff c t l : Inv c -> c_poisoned c = false -> knownc c t ->
+  (wt_has_appointment c t l = true <-> Rrow (c_db c) t l \/ Prow (c_db c) t l \/ Irow (c_db c) t l).
+Proof.
+  intros [HD HM] Hp Hk. destruct (HM Hp) as [M1 _]. unfold wt_has_appointment. unfold knownc, amem in Hk.
+  destruct (aget (c_towers c) t) as [su|] eqn:E; [|discriminate].
+  destruct (M1 t su E) as [tr [rr [_ [_ [_ [_ [_ [_ [C5 C6]]]]]]]]].
+  rewrite !orb_true_iff, !memN_In.
+  assert (HP : In l (su_pending su) <-> Prow (c_db c) t l).
+  { rewrite (C5 l), In_pending_locators. unfold Prow. split; intros [r0 [A [B C]]]; exists r0; auto. }
+  assert (HIv : In l (su_invalid su) <-> Irow (c_db c) t l).
+  { rewrite (C6 l), In_invalid_locators. unfold Irow. split; intros [r0 [A [B C]]]; exists r0; auto. }
+  assert (HR : (match dbm_load_appointment_receipt (c_db c) t l with Some _ => true | None => false end) = true <-> Rrow (c_db c) t l).
+  { unfold dbm_load_appointment_receipt. rewrite <- has_pk_find. apply has_receipt_row_iff. }
+  rewrite HP, HIv, HR. tauto.
+Qed.
+
+(* ---- frame lemmas for FInv ---- *)
+Lemma FInv_core s s' :
+  f_c s' = f_c s -> f_mgr s' = f_mgr s -> f_chan s' = f_chan s -> f_tasks s' = f_tasks s -> f_due s' = f_due s ->
+  FInv s -> FInv s'.
+Proof.
+  intros E1 E2 E3 E4 E5 HF. unfold FInv, VolInv, poisoned, TaskInv, rstat, tracked, retrier_pending in *.
+  rewrite E1, E2, E3, E4, E5. exact HF.
+Qed.
+
+(* a step that only replaces the client *)
+Lemma FInv_client s c' :
+  FInv s -> Inv c' -> DurInv (c_db c') (f_due s) ->
+  (c_poisoned c' = false -> poisoned s = false /\
+     (forall t, stat c' t = Some Misbehaving -> Mrow (c_db c') t) /\
+     (forall t, knownc c' t -> forall l, In l (tracked s t) -> Prow (c_db c') t l) /\
+     c_retriers c' = c_retriers (f_c s)) ->
+  FInv (set_c s c').
+Proof.
+  intros [HI [HD [HV HT]]] HI' HD' H. split; [exact HI'|]. split; [exact HD'|]. split; [|exact HT].
+  intros Hp. change (poisoned (set_c s c')) with (c_poisoned c') in Hp. destruct (H Hp) as [Hp0 [A [B C]]].
+  destruct (HV Hp0) as [V1 [V2 [V3 [V4 V5]]]].
+  split; [exact A|]. split; [exact B|]. split; [exact V3|]. split; [exact V4|].
+  intros t Ht. cbn [f_c set_c]. rewrite C. apply V5. exact Ht.
+Qed.
+
+Lemma DurInv_same_tables d d' due :
+  DbInv d' ->
+  tbl d' T_appointment_receipts = tbl d T_appointment_receipts ->
+  tbl d' T_pending_appointments = tbl d T_pending_appointments ->
+  tbl d' T_invalid_appointments = tbl d T_invalid_appointments ->
+  tbl d' T_misbehaving_proofs = tbl d T_misbehaving_proofs ->
+  (forall t, Trow d t -> Trow d' t) ->
+  DurInv d due -> DurInv d' due.
+Proof.
+  intros HD E5 E2 E3 E6 HT [_ [U E]]. split; [exact HD|]. split.
+  - intros t l Hm. unfold excl3. rewrite (Rrow_ext d d' t l E5), (Prow_ext d d' t l E2), (Irow_ext d d' t l E3). apply U.
+    rewrite <- (Mrow_ext d d' t E6). exact Hm.
+  - intros t l Hin. destruct (E t l Hin) as [A B]. split; [apply HT, A|].
+    rewrite (Rrow_ext d d' t l E5), (Prow_ext d d' t l E2), (Irow_ext d d' t l E3), (Mrow_ext d d' t E6). exact B.
+Qed.
+
+Lemma FInv_poisoned_same_db s c' :
+  FInv s -> Inv c' -> c_db c' = c_db (f_c s) -> c_poisoned c' = true -> FInv (set_c s c').
+Proof.
+  intros HF HI' Ed Hp. apply FInv_client; [exact HF|exact HI'| |].
+  - rewrite Ed. apply HF.
+  - rewrite Hp. discriminate.
+Qed.
+
+(* ---- registertower ---- *)
+Lemma FInv_register s t rp : FInv s -> fresh_ok s (FRegister t rp) = true -> FInv (fst (f_register s t t rp)).
+Proof.
+  intros HF Hg. unfold f_register. destruct (poisoned s) eqn:Hp; [exact HF|].
+  assert (HF1 : FInv (log_req s (ReqRegister t))) by (apply (FInv_core s); auto).
+  set (s1 := log_req s (ReqRegister t)) in *.
+  assert (Hp1 : poisoned s1 = false) by exact Hp.
+  destruct rp as [slots start expiry sig_ok| | | |]; cbn [fst]; try exact HF1.
+  - destruct (negb sig_ok); [exact HF1|].
+    destruct (wt_add_update_tower (f_c s1) t t slots start expiry REG_SIG) as [c' r] eqn:E.
+    destruct HF1 as [HI [HD [HV HT]]]. destruct (HV Hp1) as [V1 [V2 [V3 [V4 V5]]]].
+    destruct (prim_add_update_tower _ _ _ _ _ _ _ _ _ HI Hp1 E) as [HI' [Hret [Hh Heff]]].
+    assert (Hgoal : FInv (set_c s1 c')).
+    { apply FInv_client; [exact (conj HI (conj HD (conj HV HT)))|exact HI'| |].
+      - destruct Heff as [[Ed _]|[_ [_ [_ [T4 [HTr Hfr]]]]]]; [rewrite Ed; exact HD|].
+        apply (DurInv_same_tables (c_db (f_c s1))); try (apply Hfr; discriminate); [apply HI'| |exact HD].
+        intros k Hk. apply HTr. left. exact Hk.
+      - intros Hp'. split; [exact Hp1|]. destruct Heff as [[Ed Hst]|[_ [_ [Hst [T4 [HTr Hfr]]]]]].
+        + split; [intros k Hk; rewrite Ed; apply V1; rewrite <- Hst; exact Hk|]. split; [|exact Hret].
+          intros k Hk l Hl. rewrite Ed. apply V2; [|exact Hl]. unfold knownc in *. rewrite <- (stat_known _ _ Hst k). exact Hk.
+        + split.
+          { intros k Hk. rewrite (Mrow_ext _ _ k (Hfr T_misbehaving_proofs ltac:(discriminate) ltac:(discriminate))). apply V1.
+            rewrite Hst in Hk. destruct (N.eqb k t) eqn:Ek; [|exact Hk]. apply N.eqb_eq in Ek. subst k.
+            destruct (stat (f_c s1) t); [exact Hk|discriminate]. }
+          split; [|exact Hret].
+          intros k Hk l Hl. rewrite (Prow_ext _ _ k l (Hfr T_pending_appointments ltac:(discriminate) ltac:(discriminate))).
+          destruct (amem (c_towers (f_c s1)) k) eqn:Eam; [apply V2; [exact Eam|exact Hl]|].
+          (* a tower that was not known: only the one being registered, and the guard says nothing is tracked for it *)
+          exfalso. assert (k = t).
+          { unfold knownc, amem in Hk, Eam. specialize (Hst k). unfold stat in Hst.
+            destruct (N.eqb k t) eqn:Ek; [apply N.eqb_eq; exact Ek|].
+            destruct (aget (c_towers c') k), (aget (c_towers (f_c s1)) k); cbn in Hst; try discriminate. }
+          subst k. cbn in Hg. change (c_towers (f_c s)) with (c_towers (f_c s1)) in Hg. rewrite Eam in Hg. cbn in Hg.
+          change (tracked s t) with (tracked s1 t) in Hg. destruct (tracked s1 t); [contradiction|discriminate]. }
+    destruct r; cbn [fst]; exact Hgoal.
+  - (* connection error *)
+    destruct (amem (c_towers (f_c s1)) t) eqn:Ek; [|exact HF1].
+    destruct HF1 as [HI [HD [HV HT]]]. destruct (HV Hp1) as [V1 [V2 [V3 [V4 V5]]]].
+    destruct (prim_set_status (f_c s1) t TemporaryUnreachable HI) as [HI' [Ed [Hret [Hpo [Hst _]]]]].
+    apply FInv_client; [exact (conj HI (conj HD (conj HV HT)))|exact HI'|rewrite Ed; exact HD|].
+    intros _. split; [exact Hp1|]. split; [|split; [|exact Hret]].
+    + intros k Hk. rewrite Ed. apply V1. rewrite Hst in Hk. destruct (N.eqb k t); [|exact Hk].
+      destruct (stat (f_c s1) t); discriminate.
+    + intros k Hk l Hl. rewrite Ed. apply V2; [|exact Hl]. unfold knownc, amem in *. specialize (Hst k). unfold stat in Hst.
+      destruct (N.eqb k t) eqn:Ekt.
+      * apply N.eqb_eq in Ekt. subst k. exact Ek.
+      * destruct (aget (c_towers (wt_set_tower_status (f_c s1) t TemporaryUnreachable)) k), (aget (c_towers (f_c s1)) k); cbn in Hst; try discriminate; auto.
+Qed.
+
+(* ---- sets ---- *)
+Lemma In_set_union a : forall b x, In x (set_union b a) <-> In x b \/ In x a.
+Proof.
+  induction a as [|y a IH]; intros b x; cbn; [tauto|]. rewrite IH, In_set_add. intuition congruence.
+Qed.
+Lemma NoDup_set_add x l : NoDup l -> NoDup (set_add x l).
+Proof.
+  intros H. unfold set_add. destruct (memN x l) eqn:E; [exact H|].
+  apply NoDup_app_iff. split; [exact H|]. split; [constructor; [tauto|constructor]|].
+  intros y Hy [<-|[]]. apply memN_In in Hy. congruence.
+Qed.
+Lemma NoDup_set_union a : forall b, NoDup b -> NoDup (set_union b a).
+Proof. induction a as [|y a IH]; intros b H; cbn; [exact H|]. apply IH, NoDup_set_add, H. Qed.
+Lemma NoDup_set_remove x l : NoDup l -> NoDup (set_remove x l).
+Proof. intros H. unfold set_remove. apply NoDup_filter. exact H. Qed.
+Lemma NoDup_rdata_set d : NoDup (rdata_set d).
+Proof. destruct d; cbn; [constructor; [tauto|constructor]|apply NoDup_set_union; constructor|constructor]. Qed.
+
+Lemma tracked_push s t d k : tracked (push_chan s t d) k = tracked s k ++ (if N.eqb t k then rdata_set d else []).
+Proof.
+  rewrite !tracked_eq. unfold push_chan. cbn [f_chan set_chan]. rewrite chan_data_app, <- app_assoc. f_equal. f_equal.
+  unfold chan_data. cbn. rewrite app_nil_r. reflexivity.
+Qed.
+
+(* pushing a message: the client is untouched *)
+Lemma FInv_push s t d :
+  FInv s ->
+  (poisoned s = false -> knownc (f_c s) t -> forall l, In l (rdata_set d) -> Prow (c_db (f_c s)) t l) ->
+  (poisoned s = false -> rstat s t = Some RRunning -> NoDup (tracked s t ++ rdata_set d)) ->
+  FInv (push_chan s t d).
+Proof.
+  intros [HI [HD [HV HT]]] H1 H2. split; [exact HI|]. split; [exact HD|]. split; [|exact HT].
+  intros Hp. change (poisoned (push_chan s t d)) with (poisoned s) in Hp. destruct (HV Hp) as [V1 [V2 [V3 [V4 V5]]]].
+  split; [exact V1|]. split; [|split; [|split; [exact V4|exact V5]]].
+  - intros k Hk l Hl. rewrite tracked_push in Hl. apply in_app_or in Hl. destruct Hl as [Hl|Hl]; [apply V2; assumption|].
+    destruct (N.eqb t k) eqn:E; [|contradiction]. apply N.eqb_eq in E. subst k. apply H1; assumption.
+  - intros k Hk. change (rstat (push_chan s t d) k) with (rstat s k) in Hk. rewrite tracked_push.
+    destruct (N.eqb t k) eqn:E; [|rewrite app_nil_r; apply V3, Hk]. apply N.eqb_eq in E. subst k. apply H2; assumption.
+Qed.
+
+(* ---- retrytower ---- *)
+Lemma su_pending_rows c t su l : Inv c -> c_poisoned c = false -> aget (c_towers c) t = Some su -> In l (su_pending su) -> Prow (c_db c) t l.
+Proof.
+  intros [HD HM] Hp E Hl. destruct (proj1 (HM Hp) t su E) as [tr [rr [_ [_ [_ [_ [_ [_ [C5 _]]]]]]]]].
+  apply C5, In_pending_locators in Hl. destruct Hl as [row [A [B C]]]. exists row. auto.
+Qed.
+
+Lemma FInv_manual_retry s t : FInv s -> FInv (fst (f_manual_retry s t)).
+Proof.
+  intros HF. unfold f_manual_retry. destruct (poisoned s) eqn:Hp; [exact HF|].
+  destruct (aget (c_towers (f_c s)) t) as [su|] eqn:Et; [|exact HF].
+  destruct (aget (c_retriers (f_c s)) t) as [st|] eqn:Er.
+  - destruct (is_idle st); [|exact HF]. cbn [fst]. apply FInv_push; [exact HF| |].
+    + intros _ _ l [].
+    + intros _ Hr. cbn [rdata_set]. rewrite app_nil_r. destruct HF as [_ [_ [HV _]]]. destruct (HV Hp) as [_ [_ [V3 _]]]. apply V3, Hr.
+  - destruct (is_retryable (su_status su)); [|exact HF]. cbn [fst]. apply FInv_push; [exact HF| |].
+    + intros _ _ l Hl. cbn in Hl. apply In_set_union in Hl. destruct Hl as [[]|Hl].
+      destruct HF as [HI _]. eapply su_pending_rows; eauto.
+    + intros _ Hr. destruct HF as [_ [_ [HV _]]]. destruct (HV Hp) as [_ [_ [_ [_ V5]]]]. rewrite (V5 t Hr) in Er. discriminate.
+Qed.
+
+(* ---- restart ---- *)
+Lemma reload_retries_In c t ls : In (t, ls) (reload_retries c) -> exists su, In (t, su) (c_towers c) /\ ls = su_pending su.
+Proof.
+  unfold reload_retries. rewrite in_flat_map. intros [[k su] [A B]]. cbn in B.
+  destruct (is_temporary_unreachable (su_status su)); [|contradiction]. destruct B as [B|[]]. inversion B. subst. exists su. auto.
+Qed.
+
+Lemma load_towers_In d k su : In (k, su) (load_towers d) ->
+  su_pending su = pending_locators d k /\ su_status su = db_status d k (pending_locators d k).
+Proof.
+  unfold load_towers. rewrite in_flat_map. intros [tr [A B]]. unfold load_summary in B.
+  destruct (max_receipt d (col tr C_towers_tower_id)); [|contradiction]. destruct B as [B|[]]. inversion B. subst. cbn. split; reflexivity.
+Qed.
+
+Lemma aget_In {V} (m : amap V) k v : aget m k = Some v -> In (k, v) m.
+Proof.
+  induction m as [|[k' v'] m IH]; cbn; [discriminate|]. destruct (N.eqb k k') eqn:E.
+  - apply N.eqb_eq in E. subst. intros H. inversion H. left. reflexivity.
+  - intros H. right. apply IH, H.
+Qed.
+
+Lemma FInv_restart_with s d : FInv s -> DurInv d (f_due s) -> FInv (restart_with s d).
+Proof.
+  intros HF HD. assert (HDb : DbInv d) by apply HD.
+  assert (HI' : Inv (wt_reload (with_db (f_c s) d))) by (apply Inv_reload; exact HDb).
+  split; [exact HI'|]. split; [exact HD|]. split; [|apply TaskInv_restart].
+  intros _. split; [|split; [|split; [|split]]].
+  - intros t Ht. unfold stat, restart_with in *. cbn [f_c c_towers wt_reload c_db with_db] in *.
+    destruct (aget (load_towers d) t) as [su|] eqn:E; [|cbn in Ht; discriminate]. cbn in Ht. inversion Ht as [Hs].
+    apply aget_In, load_towers_In in E. destruct E as [_ Est]. rewrite Est in Hs. unfold db_status in Hs.
+    destruct (exists_misbehaving_proof d t) eqn:Ep; [apply proof_iff; exact Ep|].
+    destruct (pending_locators d t); discriminate.
+  - intros t Hk l Hl. rewrite tracked_eq in Hl. unfold retrier_pending, restart_with in *. cbn [f_mgr f_chan f_c aget app] in *. unfold chan_data in Hl. rewrite in_flat_map in Hl. destruct Hl as [[k dt] [A B]].
+    apply in_map_iff in A. destruct A as [[k' ls] [A1 A2]]. cbn in A1. inversion A1. subst. clear A1.
+    cbn in B. destruct (N.eqb k t) eqn:Ek; [|contradiction]. apply N.eqb_eq in Ek. subst k.
+    apply reload_retries_In in A2. destruct A2 as [su [A2 ->]]. cbn [c_towers wt_reload c_db with_db] in A2.
+    apply load_towers_In in A2. destruct A2 as [Epend _]. apply In_set_union in B. destruct B as [[]|B].
+    rewrite Epend in B. apply In_pending_locators in B. destruct B as [row [B1 [B2 B3]]]. exists row. auto.
+  - intros t Ht. discriminate.
+  - intros t r Ht. discriminate.
+  - intros t Ht. discriminate.
+Qed.
+
+Lemma FInv_restart s : FInv s -> FInv (f_restart s).
+Proof. intros HF. apply FInv_restart_with; [exact HF|apply HF]. Qed.
